@@ -246,6 +246,59 @@ func c19Families(tier string) []explore.Family {
 			c19Compare(r, ti, long[i], long[i], "len3-4")
 		}
 	}})
+	// a proper prefix of a closing delimiter INSIDE a tag or object is ordinary content: with ==> as the tag closer,
+	// `assign same = a == b` has two of its three characters in its arguments. Every valid quadruple of the two
+	// families above whose closers are at least 2 long, each proper prefix (and the prefix doubled) as a string
+	// literal and as an operator-like run between operands.
+	type pfxCase struct {
+		q    [4]string
+		p, o string // prefix of the tag closer, prefix of the object closer
+	}
+	var pfx []pfxCase
+	addPfx := func(q [4]string) {
+		for i := 1; i <= len(q[3]); i++ {
+			for j := 1; j <= len(q[1]); j++ {
+				tp, op := q[3][:i], q[1][:j]
+				if i == len(q[3]) {
+					tp = q[3][:i-1] + q[3][:i-1] // the prefix doubled instead of the whole closer
+				}
+				if j == len(q[1]) {
+					op = q[1][:j-1] + q[1][:j-1]
+				}
+				if tp == "" || op == "" || strings.Contains(tp, q[3]) || strings.Contains(op, q[1]) || strings.ContainsAny(tp+op, `"'\`) {
+					continue
+				}
+				pfx = append(pfx, pfxCase{q, tp, op})
+			}
+		}
+	}
+	for _, q := range long {
+		addPfx(q)
+	}
+	for _, q := range [][4]string{{"[[", "]]", "<==", "==>"}, {"<<", ">>>", "[$", "$$]"}, {"<", ">>", "[", "]]]"}, {"$<", ">$", "<[[", "]]>"}} {
+		if c19Valid(q) {
+			addPfx(q)
+		}
+	}
+	fams = append(fams, explore.Family{Name: "closer-prefix-inside-tags", Count: int64(len(pfx)), Run: func(i int64, r *explore.Rec) {
+		c := pfx[i]
+		q := c.q
+		src := q[2] + ` assign v = "` + c.p + `" ` + q[3] + q[0] + ` v ` + q[1] + "|" + q[0] + ` "` + c.o + `" ` + q[1] + "|" +
+			q[2] + ` if "` + c.p + `" == v ` + q[3] + "T" + q[2] + ` endif ` + q[3] + "|" + q[0] + ` "x` + c.o + `y" | size ` + q[1]
+		want := c.p + "|" + c.o + "|T|" + fmt.Sprint(len(c.o)+2)
+		r.Eval()
+		r.Trace()
+		var o Outcome
+		o.Panic = explore.Safe(func() {
+			e := liquid.NewEngine().Delims(q[0], q[1], q[2], q[3])
+			out, err := e.ParseAndRender([]byte(src), map[string]any{})
+			o.Out, o.Err = string(out), err
+		})
+		r.Class("closer-prefix/" + o.Class())
+		if o.Panic != nil || o.Err != nil || o.Out != want {
+			r.Violation("differs:closer-prefix-inside-tag", map[string]any{"delims": q, "template": src}, want, o.String())
+		}
+	}})
 	// each subset of positions left empty = default at that position
 	reps := [][4]string{{"<", ">", "[", "]"}, {"<<", ">>", "<$", "$>"}, {"[", "]", "<", ">"}, {"$", `\`, "<", ">"}, {"<[", "]>", "[<", ">]"}, {"<", ">>", "[[", "]"}}
 	if tier == "thorough" {
